@@ -1,8 +1,126 @@
 /-
-C07 — property theorems (under construction; see DESIGN.md section 8).
+C07 — SUBSCRIBE and UNSUBSCRIBE are always acknowledged and take effect at the
+acknowledgement.
+
+Property theorems only (helper lemmas: `Proofs/BrokerFanout*.lean`).  Model:
+`Model/Broker.lean` (`packet`, `subscribeLoop`, `sendRetained`) over the topic
+store `Model/Topics.lean`; specification: `Spec/Broker.lean` (`subCode`).  All
+theorems quantify over every state satisfying the representation invariant
+`Inv` (which `step` preserves from the initial state: `C07_inv_step`).
 -/
-import Mqtt.Model.Broker
-import Mqtt.Spec.Broker
+import Mqtt.Proofs.BrokerFanout
+
+set_option linter.unusedSimpArgs false
 
 namespace Mqtt.Properties.C07
+open Mqtt.Iface.Broker Mqtt.Model.Broker Mqtt.Proofs.Broker
+open Mqtt.Model.Topics (MemTopics)
+open Mqtt.Proofs.Topics (good)
+
+/-- the return code for one requested (filter, QoS byte), read off the topic
+store's own answer: the granted QoS `min(requested, server maximum)` if
+`MemTopics.subscribe` accepts the pair, 0x80 if it rejects it -/
+def grantCode (mt : MemTopics) (c : Nat) (tq : Bytes × Nat) : Nat :=
+  match (mt.subscribe Mqtt.Generated.maxQosAllowed tq.1 tq.2 c).2 with
+  | some _ => min tq.2 Mqtt.Generated.maxQosAllowed
+  | none => 0x80
+
+/-! ### (a) one SUBACK, first, same identifier, one code per filter in request order -/
+
+/-- A SUBSCRIBE on a live connection: the first output is the SUBACK to that
+connection with the request's identifier and exactly one return code per
+requested filter, in request order - `min(requested, maximum)` where the store
+accepts the filter, 0x80 where it rejects it (whatever state `mt` the store is
+in: acceptance depends on the request only).  Everything after the SUBACK is a
+PUBLISH to the same connection (retained delivery), so there is no second
+SUBACK and the request is never dropped. -/
+theorem C07_suback_shape (b : B) (hinv : Inv b) (c id : Nat) (topics : List (Bytes × Nat))
+    (hl : b.alive c = true) :
+    ∃ codes rest, (packet b c (.subscribe id topics)).2 = .send c (.suback id codes) :: rest ∧
+      codes.length = topics.length ∧
+      (∀ mt : MemTopics, codes = topics.map (grantCode mt c)) ∧
+      (∀ o ∈ rest, isPublishTo c o = true) ∧
+      (∀ o ∈ rest, ∀ d i cs, o ≠ .send d (.suback i cs)) := by
+  obtain ⟨cn, s, hc, ha, hs⟩ := hinv.live b c hl
+  rw [packet_subscribe b c cn s id topics hc ha hs]
+  have hcodes := subscribeLoop_codes c topics b s [] []
+  have hconns := (subscribeLoop_conns c topics b s [] []).1
+  generalize subscribeLoop b c s topics [] [] = r at *
+  obtain ⟨b1, s1, codes, rms⟩ := r
+  simp only [List.nil_append] at hcodes hconns ⊢
+  have hal : (b1.setSess s1).alive c = true := by
+    rw [alive_congr b (b1.setSess s1) (by simp [hconns]) c]; exact hl
+  have hshape := (sendRetained_shape c rms (b1.setSess s1)).2.2.2
+  refine ⟨codes, (sendRetained (b1.setSess s1) c rms).2, ?_, ?_, ?_, hshape, ?_⟩
+  · simp [send, hal]
+  · rw [hcodes]; simp
+  · intro mt
+    rw [hcodes]
+    apply List.map_congr_left
+    intro tq _
+    simp only [grantCode, modelCode, subscribe_snd]
+    cases accepts tq.1 tq.2 <;> simp
+  · intro o ho d i cs he
+    have := hshape o ho
+    rw [he] at this
+    simp [isPublishTo] at this
+
+/-- non-vacuity: a broker with one client ("a", connection 1) and a retained
+message on "a/b"; SUBSCRIBE id 7 for "a/+" (QoS 1), "a/#/x" (invalid), "a/b"
+with QoS byte 3 (invalid), "a/b" (QoS 0): SUBACK [1, 0x80, 0x80, 0] first, then
+the retained message once per granted filter. -/
+def exConnect (c : Nat) (cid : Bytes) : Ev :=
+  .first c (.connect { protoName := [77, 81, 84, 84], version := 4, clean := true, will := none, clientId := cid }) true
+
+def exState : B :=
+  (run {} [exConnect 1 [97], exConnect 2 [98],
+           .srvPub { qos := 1, retain := true, topic := [97, 47, 98], payload := [1, 2] }]).1
+
+example :
+    exState.alive 1 = true ∧
+    (packet exState 1 (.subscribe 7 [([97, 47, 43], 1), ([97, 47, 35, 47, 120], 1), ([97, 47, 98], 3), ([97, 47, 98], 0)])).2 =
+      [.send 1 (.suback 7 [1, 0x80, 0x80, 0]),
+       .send 1 (.publish { qos := 1, retain := true, topic := [97, 47, 98], pktid := 1, payload := [1, 2] }),
+       .send 1 (.publish { qos := 0, retain := true, topic := [97, 47, 98], pktid := 0, payload := [1, 2] })] := by
+  decide
+
+/-- For filters without empty and without '$'-led levels (findings B3, B4 are
+outside), the codes are the specification's: `min(q, 2)` for a valid filter
+with QoS byte <= 2, else 0x80. -/
+theorem C07_codes_spec_partial (mt : MemTopics) (c : Nat) (topics : List (Bytes × Nat))
+    (hg : ∀ tq ∈ topics, good tq.1 = true) :
+    topics.map (grantCode mt c) = topics.map (fun tq => Mqtt.Spec.Broker.subCode tq.1 tq.2) := by
+  apply List.map_congr_left
+  intro tq htq
+  rw [← modelCode_good tq.1 tq.2 (hg tq htq)]
+  simp only [grantCode, modelCode, subscribe_snd]
+  cases accepts tq.1 tq.2 <;> simp
+
+/-- the full statement (all filters) -/
+def C07_codes_spec_full : Prop :=
+  ∀ (mt : MemTopics) (c : Nat) (topics : List (Bytes × Nat)),
+    topics.map (grantCode mt c) = topics.map (fun tq => Mqtt.Spec.Broker.subCode tq.1 tq.2)
+
+/-- false of the code as it is (finding B4): "a/$b" is a valid filter, the broker answers 0x80 -/
+theorem C07_codes_spec_full_counterexample : ¬ C07_codes_spec_full := by
+  intro h
+  have := h MemTopics.new 1 [([97, 47, 36, 98], 1)]
+  exact absurd this (by decide)
+
+/-- the regenerated server maximum is the protocol's -/
+theorem C07_facts_maxQos : Mqtt.Generated.maxQosAllowed = Mqtt.Spec.Broker.maxQos := facts_maxQos
+
+/-! ### (b) UNSUBSCRIBE -/
+
+/-- An UNSUBSCRIBE on a live connection is answered by exactly one packet: the
+UNSUBACK with the request's identifier. -/
+theorem C07_unsuback (b : B) (hinv : Inv b) (c id : Nat) (topics : List Bytes) (hl : b.alive c = true) :
+    (packet b c (.unsubscribe id topics)).2 = [.send c (.unsuback id)] := by
+  obtain ⟨cn, s, hc, ha, hs⟩ := hinv.live b c hl
+  rw [packet_unsubscribe b c cn s id topics hc ha hs]
+  simp [send, hl]
+
+example : exState.alive 2 = true ∧
+    (packet exState 2 (.unsubscribe 9 [[97, 47, 43], [120]])).2 = [.send 2 (.unsuback 9)] := by decide
+
 end Mqtt.Properties.C07
